@@ -1,6 +1,8 @@
 import PromModel.Suites.PromqlPrintSuite
 import PromProofs.PromqlDuration
 import PromProofs.PromqlQuote
+import PromProofs.PromqlRoundtrip
+import PromProofs.PromqlUnlex
 /-
   Property C26 — PromQL expressions print to text that parses back unchanged.
 
@@ -14,9 +16,17 @@ import PromProofs.PromqlQuote
   * `parse_total`        the model parser is a total function whose outcome is `err` or `ok …` — it has no
                          third, "internal error" outcome (the implementation's `ErrUnexpected` / recovered
                          panics are flagged by the judge on every run);
-  * witnesses of the defects the real printer has (the model reproduces them).
-  The expression-level statement `parse_print_full` is kept visible below; it is NOT proved here
-  (see the comment next to it) — on the expression level the tie is the byte-exact correspondence.
+  * witnesses of the defects the real printer has (the model reproduces them);
+  * `lex_unlex`          lexing the rendering of a list of printer items (words, operators, numbers,
+                         durations, quoted strings, `{matchers}`, `[range]`, `[range:step]`, parentheses, `@`,
+                         commas) with any spacing that puts a space where one is needed gives the tokens back;
+  * `number_literal_roundtrip`, `string_literal_roundtrip`, `selector_roundtrip`: parse ∘ print on literals
+                         (incl. the repaired ±Inf / NaN printing) and on vector selectors with matchers;
+  * `parse_print_partial` parse ∘ print = id (up to matcher order) on the fragment `Producible`: literals,
+                         selectors, parentheses, unary signs, binary operators with the whole precedence /
+                         associativity table, `bool`, on / ignoring / group_left / group_right.
+  The full expression-level statement `parse_print_full` is kept visible below; the node kinds it still
+  lacks are listed next to it — for those the tie is the byte-exact correspondence.
 -/
 namespace Prom.C26
 open Prom.Promql Prom.PromqlPrint
@@ -93,6 +103,94 @@ theorem bare_selector_print (f : Bool) (n : Bytes) (hn : n ≠ []) :
 
 example : ([102, 111, 111] : Bytes) ≠ [] := by simp
 
+/-! ### layer 1: lex ∘ unlex -/
+
+/-- A list of printer items — words (identifiers, metric names, keywords, `and`/`or`/`unless`/`atan2`,
+    `Inf`/`NaN`), the 14 symbolic operators, parentheses, commas, `@`, plain decimal numbers, durations
+    (`model.Duration.String`), double-quoted strings (`strconv.Quote`), `{matchers}` groups (bare or quoted
+    names, all four operators), `[range]` and `[range:step]` groups — written out with an optional single
+    space after each item, lexes back to exactly the items' tokens, provided every item is well formed, a
+    space is written wherever two adjacent items would otherwise fuse (`needSpace`: word/number/duration
+    next to word/number/duration, `<`/`>` next to an operator) and parentheses are balanced.  The printer's
+    own spacing is one admissible choice of the flags. -/
+theorem lex_unlex (items : List (PItem × Bool)) (hok : ∀ p ∈ items, p.1.ok = true)
+    (hsp : spacedOk items = true) (hpar : parensOk 0 items = true) :
+    lex (render items) = some (items.flatMap (fun p => p.1.toks)) :=
+  Prom.Promql.lex_unlex items hok hsp hpar
+
+/-- `foo{a="b"}[5m] offset 1m` as items: the hypotheses hold. -/
+example :
+    let items : List (PItem × Bool) :=
+      [(.word (bs "foo"), false), (.matchers [⟨bs "a", false, .eq, bs "b"⟩], false), (.range 300000, true),
+       (.word (bs "offset"), true), (.dur 60000, false)]
+    (∀ p ∈ items, p.1.ok = true) ∧ spacedOk items = true ∧ parensOk 0 items = true := by
+  refine ⟨?_, by with_unfolding_all decide, by with_unfolding_all decide⟩
+  intro p hp
+  simp only [List.mem_cons, List.not_mem_nil, or_false] at hp
+  rcases hp with rfl | rfl | rfl | rfl | rfl <;> with_unfolding_all decide
+
+/-! ### layer 2: literals -/
+
+/-- A number literal whose float text reads back (hypothesis `NumRT` on the shortest-digits layer) prints
+    to text that parses to the same literal — under every option set, with the repaired ±Inf printing. -/
+theorem number_literal_roundtrip (o : Opts) (v : F64Q.F64) (h : NumRT v) :
+    parse o ((Expr.num v false).print true) = some (.num v false) :=
+  (Frag.num h).roundtrip o (WT.num v false)
+
+example : NumRT F64Q.F64.pinf := numRT_pinf
+example : NumRT F64Q.F64.ninf := numRT_ninf
+example : NumRT F64Q.F64.nan := numRT_nan
+
+/-- the repaired printer's `Inf`, `-Inf`, `NaN` parse back (cf. finding F13) -/
+theorem inf_literal_roundtrip (o : Opts) :
+    parse o ((Expr.num F64Q.F64.pinf false).print true) = some (.num F64Q.F64.pinf false) ∧
+    parse o ((Expr.num F64Q.F64.ninf false).print true) = some (.num F64Q.F64.ninf false) ∧
+    parse o ((Expr.num F64Q.F64.nan false).print true) = some (.num F64Q.F64.nan false) :=
+  ⟨number_literal_roundtrip o _ numRT_pinf, number_literal_roundtrip o _ numRT_ninf,
+   number_literal_roundtrip o _ numRT_nan⟩
+
+/-- A string literal without U+FFFD (finding C26-F6) prints to text that parses to the same literal:
+    every byte string otherwise, including invalid UTF-8 and control characters. -/
+theorem string_literal_roundtrip (o : Opts) (s : Bytes) (h : hasRC s = false) :
+    parse o ((Expr.str s).print true) = some (.str s) :=
+  (Frag.str h).roundtrip o (WT.str s)
+
+example : hasRC [0xff, 34, 92, 10, 0xC2, 0x80, 7] = false := by decide
+
+/-! ### layer 3: selectors -/
+
+/-- A vector selector (bare or quoted metric name, matchers of all four types with bare or quoted label
+    names, any byte strings as values) prints to text that parses to the same selector with its matchers in
+    printed order — a permutation of the original list.  `SelOK`: the side conditions the parser guarantees
+    (name matcher last, regexes compile, no U+FFFD, the name is a word the grammar accepts as a metric). -/
+theorem selector_roundtrip (o : Opts) (name : Bytes) (ms : List Matcher) (h : SelOK name ms) :
+    parse o ((Expr.vs name ms 0 .nil .none .none).print true) = some (.vs name (normMs name ms) 0 .nil .none .none) ∧
+    (normMs name ms).Perm ms :=
+  ⟨(Frag.vs h).roundtrip o (WT.vs h.1), normMs_perm h.1⟩
+
+/-! ### layer 4: expressions -/
+
+/-- Parser outputs inside the fragment: shape (`Frag`: precedence side conditions, literal / selector /
+    modifier hypotheses) and typing (`WT`: what `checkAST` enforces and leaves behind). -/
+def Producible (e : Expr) : Prop := Frag e ∧ WT e
+
+/-- PARTIAL (fragment): for every producible tree built from number / string literals, vector selectors
+    with matchers, parentheses, unary signs and binary operators (all 18 operators with the precedence and
+    associativity table, incl. right-associative `^` and unary minus vs `^`; `bool`; on / ignoring /
+    group_left / group_right), under every option set: the printed text parses; the result is `norm e`,
+    which equals `e` up to the order of matchers inside selectors.
+    Not covered (see `parse_print_full`): offset / `@` / anchored / smoothed modifiers, matrix selectors and
+    subqueries, function calls, aggregations, duration literals and duration expressions, fill modifiers,
+    Prettify, and idempotence of the second print. -/
+theorem parse_print_partial (o : Opts) (e : Expr) (h : Producible e) :
+    parse o (e.print true) = some (norm e) ∧ MEq (norm e) e :=
+  ⟨h.1.roundtrip o h.2, h.1.norm_meq⟩
+
+/-- `Inf ^ -Inf` (finding F13: rejected-or-changed before the repair) is in the fragment. -/
+example : Producible (.bin .pow false none (.num F64Q.F64.pinf false) (.num F64Q.F64.ninf false)) :=
+  ⟨Frag.bin .pow false none (Frag.num numRT_pinf) (Frag.num numRT_ninf) (by decide) (by decide) (by decide) trivial,
+   WT.bin .pow false none (WT.num _ _) (WT.num _ _) (by decide)⟩
+
 /-- Equality of trees modulo the order of matchers inside one selector. -/
 def TreeEq (a b : Expr) : Prop :=
   (readWhole (sx a)).map SExp.canon = (readWhole (sx b)).map SExp.canon
@@ -102,10 +200,13 @@ def Clean (e : Expr) : Prop := (readWhole (sx e)).map kindOf = some "none"
 
 /-- FULL STATEMENT (not proved): every parser output free of the known defect classes prints to text
     that parses, under the same options, to an equal tree that prints identically; likewise through
-    Prettify.  What is missing: an inductive characterisation `Producible` of parser outputs and the
-    precedence lemma (children that bind looser are always `ParenExpr`), `lex_unlex` for the printer's
-    token discipline and `selector_roundtrip`; the lexical layers above are the proved part.  The
-    correspondence suite checks this statement on every generated expression instead. -/
+    Prettify.  Proved part: `parse_print_partial` (literals, vector selectors with matchers, parentheses,
+    unary signs, binary operators with all modifiers except fill).  Node kinds / aspects NOT covered by a
+    theorem: `offset`, `@`, `anchored` / `smoothed` on selectors; MatrixSelector; SubqueryExpr; Call;
+    AggregateExpr; duration literals (`NumberLiteral.Duration`) and DurationExpr; `fill` / `fill_left` /
+    `fill_right`; StepInvariantExpr; the Prettify half; `e'.print = e.print` (needs uniqueness of sorting);
+    that every parser output inside the fragment satisfies `Producible` (the converse direction).  For those
+    the correspondence suite checks this statement on every generated expression instead. -/
 def parse_print_full : Prop :=
   ∀ (o : Opts) (t : Bytes) (e : Expr), parse o t = some e → Clean e →
     (∃ e', parse o (e.print false) = some e' ∧ TreeEq e' e ∧ e'.print false = e.print false) ∧
